@@ -295,6 +295,16 @@ def body_str(case):
 def gen_rule(r):
     d = G.hostile_doc(r, 3)
     rl = G.rule_for(r, d, mode="typed", cast_p=40, cond_depth=2, max_len=3, with_doc=True, meaningful=True)
+    if r.pct() < 10:
+        # a literal mapping argument of several items whose path-looking key (written escaped) is not the first one
+        lit = {r.choice(["a", "b", "z z"]): G.json_value(r, 0)}
+        lit[r.choice(["path", "path.length", "PATH", "path.first", "\\path"])] = G.json_value(r, 1)
+        if r.coin():
+            lit["c"] = 0
+        lc = Leaf("value", None, r.choice(["equal_to", "not_equal_to", "in_"]), kwargs={"value": lit})
+        if lc.name == "in_":
+            lc = lc.replace(kwargs={"value": [lit, 1]})
+        rl = rl.replace(cond=Op(r.choice(["and", "or"]), rl.cond, lc) if r.coin() and not isinstance(rl.cond, Null) else lc)
     sp = SP.Spelling(r)
     return rl, SP.rule_spec(rl, sp), sorted(sp.dims), d
 
